@@ -129,8 +129,8 @@ PROPERTIES = {
               'statement (High affinity, not self, has an address, not connected, not already being dialed, back-off elapsed); rotation: the lifted loop body dials '
               'address number (failures mod addresses) naming the expected identity and marks the peer as being dialed; cap: number of dials started = min(eligible, cap - connections being established).',
         unverified=['every liveness / timing clause ("keeps dialing until connected", "within one interval plus jitter", "within ... of becoming reachable")',
-                    'the retain pass that drains completed dials and applies DialBackoffState::new/update/remove (stateful closure over two maps: outside Verus), and anything '
-                    'else handle_connectivity_check does outside the three lifted blocks (see seeded change C13-backoff-state-gc-resets-attempts, NOT caught by the Verus unit)',
+                    'anything handle_connectivity_check does OUTSIDE the four lifted pieces (the body of the retain closure that drains completed dials, the eligibility closure, the cap expression, the per-peer dial body): '
+                    'statements added between them are seen only by the enumeration twin (see seeded change C13-backoff-state-gc-resets-attempts)',
                     'the iterator pipeline known_peers.values().filter(..).cloned().collect() and .take(number_to_dial) around the lifted blocks'],
         assumptions=['Instant + Duration does not overflow; fewer than 2^64 consecutive failures'],
     ),
